@@ -3,7 +3,11 @@ package __PKG__
 // Models of library functions written in Go and executed symbolically in place of the originals
 // (leaf operations are engine intrinsics). Shared by every harness package; never compiled natively.
 
-import "sync"
+import (
+	"bytes"
+	"io"
+	"sync"
+)
 
 func verifSyncMapKeys(m *sync.Map) []any
 func verifOnceTake(o *sync.Once) bool
@@ -61,4 +65,27 @@ func verifModelIs(err, target error) bool {
 			return false
 		}
 	}
+}
+
+func verifReaderRest(r *bytes.Reader) []byte
+func verifReaderLeft(r *bytes.Reader) int
+func verifReaderAdvance(r *bytes.Reader, n int)
+
+// (*bytes.Reader).WriteTo, following the standard library's code with the reader's content opaque
+func verifModelReaderWriteTo(r *bytes.Reader, w io.Writer) (n int64, err error) {
+	left := verifReaderLeft(r)
+	if left <= 0 {
+		return 0, nil
+	}
+	b := verifReaderRest(r)
+	m, err := w.Write(b)
+	if m > left {
+		panic("bytes.Reader.WriteTo: invalid Write count")
+	}
+	verifReaderAdvance(r, m)
+	n = int64(m)
+	if m != left && err == nil {
+		err = io.ErrShortWrite
+	}
+	return
 }
